@@ -39,9 +39,25 @@ def _shallow_copy(interp, args, kwargs, node):
     raise EngineError(f"copy.copy of {o}")
 
 
+def _signature(interp, args, kwargs, node):
+    c = args[0]
+    if c.kind != "class" or isinstance(c.cls, str):
+        raise EngineError("inspect.signature of a non-repository class")
+    return VOpaque("signature", data={"cls": c.cls})
+
+
+def _sig_parameters(interp, o, node):
+    """parameter names of the class's __init__ (without self), read from the AST"""
+    init = o.data["cls"].find_method(interp.index, "__init__")
+    a = init.node.args
+    names = [p.arg for p in a.posonlyargs + a.args][1:] + [p.arg for p in a.kwonlyargs]
+    return interp.ctx.new_cell("dict", ([VStr(n) for n in names], [NONE for _ in names]))
+
+
 HANDLERS = {
+    "inspect.signature": (_signature, "inspect.signature(cls).parameters are the parameters of cls.__init__ (read from the AST)"),
     "copy.copy": (_shallow_copy, "copy.copy(x) is a new object of the same class with the same field values"),
     "tqdm.tqdm": (_tqdm, "tqdm(x) iterates x"),
     "os.makedirs": (_noop, "filesystem call, outside the heap model"),
 }
-ATTRS = {}
+ATTRS = {("signature", "parameters"): _sig_parameters}
